@@ -480,6 +480,39 @@ def valgrind_findings(stderr):
     return out
 
 
+HG_RE = re.compile(r"^==\d+== Possible data race during (read|write) of size \d+")
+
+
+def helgrind_findings(stderr):
+    """-> list of (key, excerpt) for helgrind race reports whose first stack has a frame in the core sources"""
+    out = []
+    lines = stderr.split("\n")
+    for i, ln in enumerate(lines):
+        m = HG_RE.match(ln)
+        if not m:
+            continue
+        inner = outer = None
+        j = i + 1
+        started = False
+        while j < len(lines) and j < i + 20:
+            fm = VG_FRAME_RE.match(lines[j])
+            if not fm:
+                if started:
+                    break
+                j += 1
+                continue
+            started = True
+            if re.search(r"(lltdBlock|lltdAutomata|lltdTlvOps|lltdWire)\.c", fm.group(2)):
+                if inner is None:
+                    inner = fm.group(1)
+                outer = fm.group(1)
+            j += 1
+        if inner:
+            name = inner if inner == outer else "%s<%s" % (inner, outer)
+            out.append(("helgrind:data-race:%s" % name, "\n".join(lines[i:i + 14])))
+    return out
+
+
 def guard_fault_key(stderr, binary):
     """symbolise the VH-FAULT backtrace left by the plain build's signal handler"""
     if "VH-FAULT backtrace:" not in stderr:
